@@ -28,6 +28,10 @@ type Result struct {
 	Extra      map[string]uint64 // e.g. schedule hash, conflict signature hash
 	Evals      int               // executions inside this run (≥1)
 	Infra      string            // non-empty = infrastructure problem (exit 2), never a violation
+	// Poisoned: the run left the process unusable (simulated tasks are parked
+	// forever holding real locks after a deadlock): the worker must stop, and the
+	// tape must be re-evaluated in fresh processes only.
+	Poisoned bool
 }
 
 func NewResult() *Result {
